@@ -61,6 +61,9 @@ func (pf *PFLog) DecodeFromBytes(data []byte, df gopacket.DecodeFeedback) error 
 	if pf.Length%4 == 1 {
 		actualLength += 3
 	}
+	if actualLength < 61 {
+		return fmt.Errorf("PFLog header length %d < 61", actualLength)
+	}
 	if len(data) < actualLength {
 		return fmt.Errorf("PFLog data size < %d", actualLength)
 	}
